@@ -12,36 +12,52 @@ def tryAct (s : Cfg) (a : Act) (what : String) : Except String Cfg :=
     if s'.bad then throw ("the destroyed server is used at " ++ what) else pure s'
   else throw ("step not possible in the model at " ++ what)
 
-def applyEv (s : Cfg) (ev : String) : Except String Cfg :=
+/-- acceptor state: the model configuration, and whether the destructor has been entered and is waiting for the
+    accept thread (`join`) -/
+abbrev ASt := Cfg × Bool
+
+def applyEv (st : ASt) (ev : String) : Except String ASt :=
+  let s := st.1
+  let keep (r : Except String Cfg) : Except String ASt := r.map fun c => (c, st.2)
   let num := (ev.drop 1).toString.toNat?
   match ev.toList.head?, num with
   | some 'a', some k =>
-    (if s.st k == 0 then tryAct s (Act.connect k) ev else pure s) >>= fun s => tryAct s (Act.accept k) ev
-  | some 'n', _ => tryAct s Act.count ev
-  | some 'b', some k => tryAct s (Act.hBegin k) ev
-  | some 'e', some k => tryAct s (Act.hEnd k) ev
-  | some 'c', some k => tryAct s (Act.hClose k) ev
-  | some 'd', some k => tryAct s (Act.hDec k) ev
+    keep ((if s.st k == 0 then tryAct s (Act.connect k) ev else pure s) >>= fun s => tryAct s (Act.accept k) ev)
+  | some 'n', _ => keep (tryAct s Act.count ev)
+  | some 'b', some k => keep (tryAct s (Act.hBegin k) ev)
+  | some 'e', some k => keep (tryAct s (Act.hEnd k) ev)
+  | some 'c', some k => keep (tryAct s (Act.hClose k) ev)
+  | some 'd', some k => keep (tryAct s (Act.hDec k) ev)
   | some 'S', _ =>
     -- the loop saw `_requestStop == true`: the controller's write has happened, even if its hook point
     -- (placed after the assignment) has not been recorded yet
-    (if s.reqStop then pure s else tryAct s Act.reqStop ev) >>= fun s => tryAct s (Act.check true) ev
-  | some 's', _ => tryAct s (Act.check false) ev
-  | some 'R', _ => if s.reqStop then pure s else tryAct s Act.reqStop ev
+    keep ((if s.reqStop then pure s else tryAct s Act.reqStop ev) >>= fun s => tryAct s (Act.check true) ev)
+  | some 's', _ => keep (tryAct s (Act.check false) ev)
+  | some 'R', _ => keep (if s.reqStop then pure s else tryAct s Act.reqStop ev)
   | some 'T', _ =>
-    -- stop(true) returns: its last reads must have seen `_running == false` and `_numClients == 0`
-    tryAct s Act.readRunning ev >>= fun s => tryAct s Act.readNum ev >>= fun s =>
+    -- stop(true) returns: its last reads must have seen `_running == false` and `_numClients == 0`.  (They are replayed
+    -- here, when the return is recorded; nothing that matters can happen between the real reads and this point, because
+    -- `_running == false ∧ _numClients == 0` is stable: `after_stop_nothing_happens`.)
+    keep (tryAct s Act.readRunning ev >>= fun s => tryAct s Act.readNum ev >>= fun s =>
       if s.cpc == CPc.returned then pure s
-      else throw "stop(true) returned while the accept loop was running or a handler was in flight"
-  | some 'D', _ => tryAct s Act.destroy ev
+      else throw "stop(true) returned while the accept loop was running or a handler was in flight")
+  | some 'E', _ =>
+    -- the accept thread reaches the end of its thread function
+    tryAct s Act.loopEnd ev >>= fun s => if st.2 then (tryAct s Act.destroy "D (after join)").map fun c => (c, false) else pure (s, false)
+  | some 'D', _ =>
+    -- the destructor is entered; it frees the server only after the accept thread has ended
+    if s.threadDone then keep (tryAct s Act.destroy ev)
+    else if s.cpc == CPc.returned then pure (s, true)
+    else throw "the server is destroyed before stop(true) has returned"
   | _, _ => throw ("unknown event " ++ ev)
 
 def acceptTrace (sequential : Bool) (evs : List String) : String :=
   let n := (evs.filter (·.startsWith "a")).length
-  match evs.foldlM applyEv (init n sequential) with
+  match evs.foldlM applyEv (init n sequential, false) with
   | .error e => "reject: " ++ e
-  | .ok s =>
+  | .ok (s, pend) =>
     if s.bad then "reject: server used after destruction"
+    else if pend then "reject: the destructor was entered but the accept thread never ended"
     else if s.cpc == CPc.destroyed && (List.range n).all (fun c => s.st c == 7 && s.serveBegins c == 1 && s.serveEnds c == 1)
     then "accept" else "reject: at the end an accepted connection was not served exactly once and closed"
 
